@@ -321,12 +321,15 @@ func (link *LinkBase) Close(log func()) {
 		return
 	}
 
+	verifGate(link, "close")
 	if link.closing.CompareAndSwap(false, true) {
 		if log != nil {
 			log()
 		}
 
+		verifGate(link, "closing")
 		link.peering.RemoveLink(link)
+		verifGate(link, "removed")
 		_ = link.conn.Close()
 		close(link.closed)
 	}
@@ -625,11 +628,14 @@ func (link *LinkBase) setupWorker(w *mgr.WorkerCtx) error {
 			link.geoMark = fmt.Sprintf("%s (%s)", cml.Country, cml.Continent)
 		}
 		// Assign switch label.
+		verifGate(link, "checked")
 		err = link.assignSwitchLabel()
 	}
 	if err == nil {
 		// Add link to peerings.
+		verifGate(link, "labelled")
 		err = link.peering.AddLink(link)
+		verifGate(link, "added")
 	}
 	if err != nil {
 		link.Close(func() {
@@ -669,11 +675,14 @@ func (link *LinkBase) handleSetup(mgr *mgr.Manager) (*LinkBase, error) {
 			link.geoMark = fmt.Sprintf("%s (%s)", cml.Country, cml.Continent)
 		}
 		// Assign switch label.
+		verifGate(link, "checked")
 		err = link.assignSwitchLabel()
 	}
 	if err == nil {
 		// Add link to peerings.
+		verifGate(link, "labelled")
 		err = link.peering.AddLink(link)
+		verifGate(link, "added")
 	}
 	if err != nil {
 		link.Close(nil)
